@@ -31,7 +31,7 @@ class FuncSpec(dict):
 
 
 def gen_function(rng, name="f_target", kind=None, style=None, doc_mode=None, order=None, with_body=False, max_pos=4, max_kw=3,
-                 force_partial_defaults=None, p_default_sentence=0.0):
+                 force_partial_defaults=None, p_default_sentence=0.0, p_no_params=None):
     """Returns FuncSpec(src=..., params=[...], ...).  params: list of dicts with
     name, kind(pos|kwonly|kwargs), default_src|None, default_class, annotation|None,
     documented(bool), doc(str|None), doc_typ(str|None)."""
@@ -41,7 +41,9 @@ def gen_function(rng, name="f_target", kind=None, style=None, doc_mode=None, ord
     order = order or rng.choice(["in", "in", "out"])
     n_pos = rng.randint(0, max_pos)
     n_kw = rng.randint(0, max_kw)
-    if n_pos + n_kw == 0 and rng.random() < 0.8:
+    if p_no_params is not None and rng.random() < p_no_params:
+        n_pos = n_kw = 0
+    elif n_pos + n_kw == 0 and rng.random() < 0.8:
         n_pos = 1
     names = rng.sample(PNAMES, n_pos + n_kw)
     params = []
